@@ -233,6 +233,23 @@ pub fn configs(prop: &str, thorough: bool) -> Vec<(Cfg, Option<usize>)> {
                 out.push((c, None));
             }
             {
+                // the RECEIVING contract R holds an allowance of its own; a caller without any allowance (S2) names R
+                // as the contract of a SendFrom, and R pulls into itself
+                let mut c = mk("C02/closed/receiver-holds-allowance");
+                c.initial = vec![(0, 2)];
+                c.senders = vec![0];
+                c.recipients = vec![4, 1];
+                c.owners = vec![0];
+                c.spenders = vec![4, 3];
+                c.amounts = vec![1, 2];
+                c.exps = vec![ExpA::Unset];
+                c.payloads = vec![0];
+                c.grant_cap = Some(2);
+                c.hmax = H0;
+                c.kinds = kinds(&["Inc", "Dec", "TransferFrom", "SendFrom", "BurnFrom"]);
+                out.push((c, None));
+            }
+            {
                 // entry points that are not about moving one's own tokens: mints, minter changes, marketing calls,
                 // and the token contract itself as recipient — nobody's balance may fall through them
                 let mut c = mk("C02/closed/other-entry-points");
